@@ -99,8 +99,8 @@ class FaultModel:
         self.sources = sources
         self.summary = {}
 
-    def prim_raises(self, callee, call):
-        kind, classes = self.eff.classify(callee, call)
+    def prim_raises(self, callee, call, func=None):
+        kind, classes = self.eff.classify(callee, call, func)
         if self.sources == 'fs':
             if kind == USER:
                 return ()
@@ -112,10 +112,10 @@ class FaultModel:
             return exc_is_sub(cls, 'OSError')
         return True
 
-    def leaf_raises(self, callee, call):
+    def leaf_raises(self, callee, call, func=None):
         if isinstance(callee, Func):
             return tuple(sorted(self.summary.get(callee.qualname, ())))
-        return self.prim_raises(callee, call)
+        return self.prim_raises(callee, call, func)
 
 
 def short_exc(prog, func, e):
@@ -314,7 +314,7 @@ class Super:
                     done.call, done.callee = call, g
                     self._edge(leaf.id, done.id)
                     self._edge(done.id, nxt)
-                    for c in self.fault.leaf_raises(g, call):
+                    for c in self.fault.leaf_raises(g, call, func):
                         self._raise_from(leaf.id, c, cn.frames, fc)
             cur = nxt
         out = self._new('out', cn, func, fc.frame)
